@@ -466,6 +466,10 @@ def reductions(plan: dict) -> Iterator[dict]:
             yield p
     # sequentialise the schedule: ddmin-style, replace slices by "continue"
     sched = plan.get("schedule") or []
+    if sched:
+        p = clone()
+        p["schedule"] = []
+        yield p
     n = len(sched)
     size = n
     while size >= 1:
